@@ -3186,6 +3186,8 @@ rfbSendFramebufferUpdate(rfbClientPtr cl,
     rfbBool sendSupportedEncodings = FALSE;
     rfbBool sendServerIdentity = FALSE;
     rfbBool result = TRUE;
+    rfbBool lastRectMode = FALSE;   /* count unknown: 0xFFFF + LastRect marker */
+    rfbBool coalesced = FALSE;
     
 
     if(cl->screen->displayHook)
@@ -3414,6 +3416,7 @@ rfbSendFramebufferUpdate(rfbClientPtr cl,
      */
     
     rfbStatRecordMessageSent(cl, rfbFramebufferUpdate, 0, 0);
+countRects:
     if (cl->preferredEncoding == rfbEncodingCoRRE) {
         nUpdateRegionRects = 0;
 
@@ -3476,6 +3479,7 @@ rfbSendFramebufferUpdate(rfbClientPtr cl,
 	    n = rfbNumCodedRectsTight(cl, x, y, w, h);
 	    if (n == 0) {
 		nUpdateRegionRects = 0xFFFF;
+		lastRectMode = TRUE;
 		break;
 	    }
 	    nUpdateRegionRects += n;
@@ -3499,6 +3503,7 @@ rfbSendFramebufferUpdate(rfbClientPtr cl,
 	    n = rfbNumCodedRectsTight(cl, x, y, w, h);
 	    if (n == 0) {
 		nUpdateRegionRects = 0xFFFF;
+		lastRectMode = TRUE;
 		break;
 	    }
 	    nUpdateRegionRects += n;
@@ -3509,8 +3514,22 @@ rfbSendFramebufferUpdate(rfbClientPtr cl,
         nUpdateRegionRects = sraRgnCountRects(updateRegion);
     }
 
+    /*
+     * nRects is a 16-bit field and 0xFFFF means "terminated by a LastRect
+     * marker": an update that would announce 65535 or more rectangles is sent
+     * as its bounding box instead.
+     */
+    if (!lastRectMode && !coalesced &&
+	sraRgnCountRects(updateCopyRegion) + (unsigned long)nUpdateRegionRects + 6 >= 0xFFFF) {
+	sraRegion* newUpdateRegion = sraRgnBBox(updateRegion);
+	sraRgnDestroy(updateRegion);
+	updateRegion = newUpdateRegion;
+	coalesced = TRUE;
+	goto countRects;
+    }
+
     fu->type = rfbFramebufferUpdate;
-    if (nUpdateRegionRects != 0xFFFF) {
+    if (!lastRectMode) {
 	if(cl->screen->maxRectsPerUpdate>0
 	   /* CoRRE splits the screen into smaller squares */
 	   && cl->preferredEncoding != rfbEncodingCoRRE
@@ -3640,7 +3659,7 @@ rfbSendFramebufferUpdate(rfbClientPtr cl,
         i = NULL;
     }
 
-    if ( nUpdateRegionRects == 0xFFFF &&
+    if ( lastRectMode &&
 	 !rfbSendLastRectMarker(cl) )
 	    goto updateFailed;
 
